@@ -58,4 +58,16 @@ func init() {
 	})
 }
 
+func init() {
+	vfCoreStages["C11"] = func(env *vfEnv, part *vfPart, spec *vfSpec) {
+		if os.Getenv("VERIF_C11_NOCLUSTER") != "" {
+			return
+		}
+		vfC11ClusterStage(env, part)
+		spec.Floors = append(spec.Floors, vfC11ClusterFloors...)
+		spec.Assumptions = append(spec.Assumptions, vfC11ClusterAssumptions...)
+		spec.Rule += "; cluster stage: leader + 1-2 follower processes behind proxies that own the acknowledgement frames (hold / forward / negate / drop / cut), ack mode all / majority, 3-5 episodes per scenario (fresh, beside a holder, granted from the queue; acknowledged one by one, first ack negative, all withheld until the time-out, cancel, two pending at once, connection cut, SLAVEOF at the leader) with probes for the pending LockId"
+	}
+}
+
 func TestVerif_C11(t *testing.T) { vfRunCoreCheck(t, "C11") }
